@@ -13,6 +13,12 @@ Tie:
     scenario violate the property (none on the current tree: the two F8 windows were fixed by /repo bb5afda;
     their classes stay recognised so that a regression is named precisely).  Reordering two renames in
     dulwich changes the generated term and breaks an obligation.
+  * recovery: what comes AFTER the crash — on every crash state the operation is run again and other writers are
+    run (recovery_runs, two_process_runs); the re-runs of the loose-object scenarios are also recorded into Gen/
+    and discharged by `retryOK` (Props.C09.retry_after_crash_safe); a `skip <o> <evidence>` call records every
+    decision not to write an object, and the checker accepts only the object's final path (or a pack index) as
+    evidence — never `<o>.lock`; translate() also checks the AST of DiskObjectStore.add_object for a handler that
+    swallows FileLocked around the GitFile write.
   * run(): for every scenario (the fixed ones + seeded random variants) EVERY prefix of the recorded program
     is materialised on disk (replayed onto a copy of the start state; the replay is cross-checked against
     the live state at every recorded boundary and right after every open()) and the property's own words
@@ -316,6 +322,7 @@ class SnapRecorder(sched.Recorder):
         self.fsyncs = []                    # (number of model calls done, rel): fsync marks for the power-loss variant
         self.dirty = True
         self.raw = []                       # raw event log (name, paths, outcome)
+        self.pending_skip = None            # a skip decided on a failed O_EXCL open, confirmed when the operation goes on
 
     # -- helpers
     def _in(self, p):
@@ -345,9 +352,15 @@ class SnapRecorder(sched.Recorder):
         self.dirty = False
         self.snaps.append((len(self.calls), dict(self.E), label, dict(self.synced)))
 
+    def _confirm_skip(self):
+        if self.pending_skip is not None:
+            self.calls.append(self.pending_skip)
+            self.pending_skip = None
+
     def _handle(self, who, name, paths, do):
         if self._busy:
             return do()
+        self._confirm_skip()                # the operation went on after a lock it could not take
         self._busy = True
         try:
             self._snap(f"before {name} {' '.join(map(str, paths))}")
@@ -358,6 +371,12 @@ class SnapRecorder(sched.Recorder):
         except BaseException as e:
             self.events.append((who, name, paths, type(e).__name__))
             self.raw.append((name, paths, type(e).__name__))
+            rel = self._in(paths[0]) if paths else None
+            if name == "open-x" and isinstance(e, FileExistsError) and rel is not None \
+                    and re.match(r"^objects/[0-9a-f]{2}/[0-9a-f]{38}\.lock$", rel):
+                # the object's lock is held / stale.  If the operation carries on WITHOUT writing the object, it has
+                # taken the lock file for evidence that the object is there: recorded as `skip <o> <lock>`
+                self.pending_skip = ("skip", rel[:-5], rel)
             raise
         self.events.append((who, name, paths, "ok"))
         self.raw.append((name, paths, "ok"))
@@ -407,6 +426,10 @@ class SnapRecorder(sched.Recorder):
                 self._diff()
                 self.synced[rel[0]] = self.E.get(rel[0])
                 self.fsyncs.append((len(self.calls), rel[0]))
+        elif name == "utime":
+            if rel[0] is not None and classify_path(rel[0])[0] == "loose":
+                # add_object: the final path is there (and freshened): the object is not written again
+                self.calls.append(("skip", rel[0], rel[0]))
         elif name in ("truncate",):
             self.dirty = True
         elif name in ("link", "symlink", "removedirs"):
@@ -419,6 +442,7 @@ class SnapRecorder(sched.Recorder):
         pass
 
     def finish(self):
+        self._confirm_skip()
         self._busy = True
         try:
             self._snap("after the operation returned")
@@ -1013,6 +1037,8 @@ def record(scn: Scn, workdir: str) -> Rec:
         with sr:
             intent = scn.op(st)
             sr.finish()
+        rec.st_values = {k: v for k, v in st.items() if not hasattr(v, "close")}
+        rec.st_repos = {k: v.path for k, v in st.items() if k not in ("r", "served") and hasattr(v, "path")}
         for k in sorted(st, key=lambda k: k != "served"):     # the server thread first
             v = st[k]
             if hasattr(v, "close"):
@@ -1043,6 +1069,8 @@ def apply_call(cd: str, call):
         os.mkdir(p)
     elif op == "rmdir":
         os.rmdir(p)
+    elif op == "skip":
+        pass
     else:
         raise core.InfraError(f"unknown model call {op}")
 
@@ -1134,7 +1162,7 @@ class Before:
 
 
 def oracle(rec: Rec, bf: Before, state_dir: str, thorough: bool, obs: dict | None = None,
-           universe=()) -> list[tuple[str, str, str | None]]:
+           universe=(), post=None) -> list[tuple[str, str, str | None]]:
     """-> list of (clause, detail, subject) violated in this crash state (empty = the property holds).
     `obs` (optional) receives what the real code reads: obs['refs'] = {name: raw}, obs['vis'] = {hex present}
     for the hex ids in `universe`."""
@@ -1170,7 +1198,7 @@ def oracle(rec: Rec, bf: Before, state_dir: str, thorough: bool, obs: dict | Non
             cur[k] = v
             old = bf.old_refs.get(k)
             allowed = [old] + ([bf.new_refs[k]] if k in bf.new_refs else [])
-            if v not in allowed:
+            if v not in allowed and post is None:
                 out.append(("ref-not-old-or-new",
                             f"{k} = {v!r}; old = {old!r}; new = {bf.new_refs.get(k, old)!r}", k))
         if obs is not None:
@@ -1188,6 +1216,8 @@ def oracle(rec: Rec, bf: Before, state_dir: str, thorough: bool, obs: dict | Non
         pr = []
         cl_now = real_closure(r.object_store, roots, pr, "reachable from a ref: ", get_parents=r.get_parents)
         out += pr
+        if obs is not None:
+            obs["closure"] = cl_now
         # … and the real history walker gets through every ref's history (honouring .git/shallow)
         tips = [h.encode() for h in roots if cl_now.get(h) and cl_now[h][0] == 1]
         if tips:
@@ -1199,7 +1229,7 @@ def oracle(rec: Rec, bf: Before, state_dir: str, thorough: bool, obs: dict | Non
                     raise
                 out.append(("history-walk-fails", f"Repo.get_walker over the refs: {type(e).__name__}: {str(e)[:100]}", None))
         # every object reachable before is still readable, with the same bytes
-        for sha, old in bf.old_closure.items():
+        for sha, old in (bf.old_closure if post is None else post).items():
             if old is None:
                 continue
             try:
@@ -1253,7 +1283,7 @@ def oracle(rec: Rec, bf: Before, state_dir: str, thorough: bool, obs: dict | Non
             if os.path.exists(p):
                 with open(p, "rb") as f:
                     data = f.read()
-            if data not in (bf.plain_old[name], bf.plain_new[name]):
+            if data not in (bf.plain_old[name], bf.plain_new[name]) and post is None:
                 out.append((f"{name}-not-old-or-new", f"{name}: {len(data) if data is not None else 'absent'} bytes, "
                             f"neither the old nor the new content", name))
             try:
@@ -1271,7 +1301,7 @@ def oracle(rec: Rec, bf: Before, state_dir: str, thorough: bool, obs: dict | Non
             r.close()
         except Exception:
             pass
-    if thorough or rec.scn.kind == "shallow_fetch":
+    if thorough or (rec.scn.kind == "shallow_fetch" and post is None):
         rc, txt = core.sh(["git", "-C", state_dir, "fsck", "--full", "--no-dangling", "--no-progress"],
                           env=core.clean_env({"GIT_CONFIG_GLOBAL": "/dev/null"}), timeout=120)
         if rc != 0:
@@ -1316,9 +1346,11 @@ class Canon:
     """Numbering of object ids, refs, packs, checksums, temp names, other paths of ONE scenario, and the
     model terms built with it.  Terms are small tuples; `lean_*`/`tok_*` render them."""
 
-    def __init__(self, rec: Rec, calls=None):
+    def __init__(self, rec: Rec, calls=None, extra=()):
         self.rec = rec
         calls = rec.calls if calls is None else calls
+        ncalls = len(calls)
+        calls = list(calls) + [c for q in extra for c in q]      # retry programs share the numbering
         objs, refs, packs, others = set(), {"HEAD"}, set(), set()
         tmps, sums, blobs = [], [], []      # numbered by first appearance (their bytes vary from run to run)
 
@@ -1389,6 +1421,10 @@ class Canon:
             elif call[0] in ("mkdir", "rmdir"):
                 see_path(call[1], is_dir=True)
                 self.prog.append((call[0], "dir:" + call[1]))
+            elif call[0] == "skip":
+                see_path(call[1])
+                see_path(call[2])
+                self.prog.append(call)
             else:
                 see_path(call[1])
                 self.prog.append(call)
@@ -1443,7 +1479,7 @@ class Canon:
             for r in stores:
                 r.close()
         # model terms
-        mentioned = {c[1] for c in self.prog} | {c[2] for c in self.prog if c[0] == "rename"}
+        mentioned = {c[1] for c in self.prog} | {c[2] for c in self.prog if c[0] in ("rename", "skip")}
         self.known = []
         for rel in sorted(self.start):
             if classify_path(rel)[0] == "other" and rel not in mentioned:
@@ -1465,8 +1501,15 @@ class Canon:
                 self.calls.append(("write", self.path(c[1]), self.content(c[2])))
             elif c[0] == "rename":
                 self.calls.append(("rename", self.path(c[1]), self.path(c[2])))
+            elif c[0] == "skip":
+                self.calls.append(("skip", self.path(c[1])[1], self.path(c[2])))
             else:
                 self.calls.append((c[0], self.path(c[1])))
+        allc, self.calls, self.prog = self.calls, self.calls[:ncalls], self.prog[:ncalls]
+        self.extra_calls, pos = [], ncalls
+        for q in extra:
+            self.extra_calls.append(allc[pos:pos + len(q)])
+            pos += len(q)
         self.new_refs = []
         for n, v in sorted(rec.intent["refs"].items()):
             if v is None:
@@ -1576,6 +1619,8 @@ class Canon:
             return f"Call.write ({self.lean_path(c[1])}) {cc}"
         if c[0] == "rename":
             return f"Call.rename ({self.lean_path(c[1])}) ({self.lean_path(c[2])})"
+        if c[0] == "skip":
+            return f"Call.skip {c[1]} ({self.lean_path(c[2])})"
         return f"Call.{c[0]} ({self.lean_path(c[1])})"
 
     @staticmethod
@@ -1621,6 +1666,8 @@ class Canon:
             return f"w:{self.tok_path(c[1])}={self.tok_content(c[2])}"
         if c[0] == "rename":
             return f"mv:{self.tok_path(c[1])}:{self.tok_path(c[2])}"
+        if c[0] == "skip":
+            return f"sk:{c[1]}:{self.tok_path(c[2])}"
         return {"unlink": "rm", "mkdir": "mk", "rmdir": "rd"}[c[0]] + ":" + self.tok_path(c[1])
 
     def tok_spec(self):
@@ -1792,14 +1839,28 @@ def translate(repo: Path) -> dict:
           "the recorded prefix refutes the ref clause of `Recoverable`. -/", "",
           "namespace Dulwich.Gen.TracesChecked", "open Dulwich.Crash Dulwich.Gen.Traces", ""]
     safe, unsafe = [], []
+    retried = []
     for name, (rec, cn_actual, ev) in fixed.items():
-        with hermetic(Path(os.path.dirname(rec.root)) / "home"):
-            cn = Canon(rec, normalise_runs(rec.calls))
+        w = os.path.dirname(rec.root)
+        with hermetic(Path(w) / "home"):
+            extra = []
+            if name in RETRY_SCENARIOS and not ev.failures:
+                for j, d in crash_states(rec, w):
+                    if j < len(rec.calls):
+                        extra.append(normalise_runs(record_retry(rec, d, w)[0]))
+            cn = Canon(rec, normalise_runs(rec.calls), extra=extra)
         calls = cn.calls
         tr.append(f"/-- scenario `{name}` ({rec.scn.kind}): start state and intent -/")
         tr.append(f"def {name}_spec : Spec :=\n  {cn.lean_spec()}")
         tr.append(f"/-- scenario `{name}`: the recorded mutating calls -/")
         tr.append(f"def {name}_prog : List Call := {cn.lean_prog()}")
+        if name in RETRY_SCENARIOS and not ev.failures:
+            tr.append(f"/-- scenario `{name}`: for k = 0 … {len(calls) - 1}, the calls the RE-RUN operation issued on the state left "
+                      f"by the first k calls (recorded from the real code; a retry stopped by a lock contributes what it did "
+                      f"before the error) -/")
+            tr.append(f"def {name}_retries : List (List Call) := [\n    " +
+                      ",\n    ".join("[" + ", ".join(cn.lean_call(c) for c in q) + "]" for q in cn.extra_calls) + "]")
+            retried.append(name)
         tr.append("")
         if not ev.failures:
             safe.append(name)
@@ -1831,11 +1892,50 @@ def translate(repo: Path) -> dict:
     ck.append("")
     ck.append("theorem flagged_rejected : flagged.all (fun e => !checkProgram e.1 e.2) = true := by decide +kernel")
     ck.append("")
+    ck.append("/-- retry after a crash (Props.C09.retry_after_crash_safe): the recorded re-runs are accepted from every crash prefix -/")
+    ck.append("def retried : List (Spec × List Call × List (List Call)) := [\n  " +
+              ",\n  ".join(f"({n}_spec, {n}_prog, {n}_retries)" for n in retried) + "]")
+    ck.append("")
+    ck.append("theorem retried_checked : retried.all (fun e => checkProgram e.1 e.2.1 && retryOK e.1 e.2.1 e.2.2) = true := by decide +kernel")
+    ck.append("")
+    swallows = add_object_lock_handling(repo)
+    raises = _add_object_under_lock_raises()
+    ck.append("/-- AST of DiskObjectStore.add_object: is the GitFile write inside a handler that swallows FileLocked / "
+              "FileExistsError / OSError? -/")
+    ck.append(f"def addObjectSwallowsLock : Bool := {'true' if swallows else 'false'}")
+    ck.append("/-- recorded: add_object of an object whose `<sha>.lock` exists raised FileLocked and wrote nothing -/")
+    ck.append(f"def addObjectUnderLockRaises : Bool := {'true' if raises else 'false'}")
+    ck.append("")
+    ck.append("theorem add_object_lock_propagates : addObjectSwallowsLock = false ∧ addObjectUnderLockRaises = true := by decide")
+    ck.append("")
     ck.append("/-- non-vacuity: every recorded start state satisfies the (executable) precondition -/")
     ck.append("theorem all_pre : (safe ++ flagged).all (fun e => preK e.1) = true := by decide +kernel")
     ck.append("")
     ck.append("end Dulwich.Gen.TracesChecked")
     return {"Traces": "\n".join(tr) + "\n", "TracesChecked": "\n".join(ck) + "\n"}
+
+
+def _add_object_under_lock_raises() -> bool:
+    """Run the real add_object on a scratch store in which `<sha>.lock` already exists."""
+    from dulwich.file import FileLocked
+    w = os.path.join(_translate_dir(), "add-under-lock")
+    shutil.rmtree(w, ignore_errors=True)
+    with hermetic(Path(w) / "home"):
+        r = _init(os.path.join(w, "repo"))
+        b = _new_blob(b"locked object\n")
+        path = r.object_store._get_shafile_path(b.id)
+        os.makedirs(os.path.dirname(path), exist_ok=True)
+        with open(path + ".lock", "wb"):
+            pass
+        before, _ = scan(r.path)
+        try:
+            r.object_store.add_object(b)
+            raised = False
+        except FileLocked:
+            raised = True
+        after, _ = scan(r.path)
+        r.close()
+    return raised and before == after
 
 
 def _ref_counterexample(cn: Canon, calls: list):
@@ -2119,7 +2219,7 @@ def power_loss_states(rec: Rec, j: int, files: dict):
     return sorted(d for d in dirty if d in files and classify_path(d)[0] not in ("other",))
 
 
-def run_scenario(ctx: core.Ctx, scn: Scn, pre=None, case_extra=None, power_loss=False, no_temp=True):
+def run_scenario(ctx: core.Ctx, scn: Scn, pre=None, case_extra=None, power_loss=False, no_temp=True, recover=True):
     """Record (or reuse `pre` = (rec, cn, ev)), evaluate every crash prefix, report."""
     w = os.path.join(str(ctx.scratch), "c09", scn.name)
     if pre is None or ctx.thorough:
@@ -2144,6 +2244,8 @@ def run_scenario(ctx: core.Ctx, scn: Scn, pre=None, case_extra=None, power_loss=
                                  "clause": clause, "subject": subj},
                         f"{scn.name}: crash after {j} calls: {clause}: {detail}", cls)
     head = correspond(ctx, scn.name, rec, cn, ev)
+    if recover:
+        recovery_runs(ctx, scn, rec, cn, ev, w, case0)
     # states holding stale lock/temp files: re-opening must not need them
     extra_states = 0
     with hermetic(Path(w) / "home"):
@@ -2190,6 +2292,374 @@ def _short(x):
     return x if not isinstance(x, (bytes, bytearray)) else f"<{len(x)} bytes>"
 
 
+# ------------------------------------------------------------------------------------------------
+# recovery runs: what comes AFTER the crash.  On (a copy of) each crash state, in a fresh Repo object, the same
+# operation is run again (the retry a user or a supervisor does) and a set of OTHER writers is run; each must
+# either fail with an ordinary error or succeed — and in both cases leave a repository in which every ref names
+# a present object with a complete closure, everything reachable in the crash state is still readable and
+# nothing half-written is taken for valid data.  A lock file is never evidence that the object is there.
+
+def leftover_kinds(rec: Rec, files: dict) -> tuple:
+    """The kinds of stale temp/lock files a crash state holds (coverage + de-duplication key)."""
+    out = set()
+    for rel in files:
+        if not is_temp_name(rel):
+            continue
+        m = re.match(r"^objects/([0-9a-f]{2})/([0-9a-f]{38})\.lock$", rel)
+        if m:
+            fin = rec.final_files.get(rel[:-5])
+            pl = parse_loose(fin) if fin is not None else None
+            out.add("objlock:" + (pl[1] if pl else "?"))
+        elif rel.startswith("objects/pack/") and rel.endswith(".idx.lock"):
+            out.add("idx.lock")
+        elif rel.startswith("objects/tmp_pack_"):
+            out.add("tmp_pack")
+        elif rel.startswith("objects/pack/tmp"):
+            out.add("tmp.pack")
+        elif rel.startswith("refs/") and rel.endswith(".lock"):
+            out.add("ref.lock")
+        elif rel in ("index.lock", "packed-refs.lock", "shallow.lock", "config.lock", "HEAD.lock"):
+            out.add(rel)
+        else:
+            out.add("other-temp")
+    return tuple(sorted(out))
+
+
+def _retry_state(rec: Rec, d: str) -> dict:
+    R = _repo_mod()
+    st = dict(rec.st_values)
+    for k, path in rec.st_repos.items():
+        st[k] = R.Repo(path)
+    st["r"] = R.Repo(d)
+    return st
+
+
+def _close_state(st: dict):
+    for k in sorted(st, key=lambda k: k != "served"):
+        v = st[k]
+        if hasattr(v, "close"):
+            try:
+                v.close()
+            except Exception:
+                pass
+
+
+def _w_retry(rec, st):
+    rec.scn.op(st)
+
+
+def _w_commit_same_tree(rec, st):
+    st["r"].get_worktree().commit(message=b"again, same tree", committer=ID, author=ID, commit_timestamp=T0 + 50,
+                                  commit_timezone=0, author_timestamp=T0 + 50, author_timezone=0)
+
+
+def _w_commit_other_tree(rec, st):
+    r = st["r"]
+    with open(os.path.join(r.path, "other.txt"), "wb") as f:
+        f.write(b"another writer was here\n")
+    wt = r.get_worktree()
+    wt.stage(["other.txt"])
+    wt.commit(message=b"other tree", committer=ID, author=ID, commit_timestamp=T0 + 51, commit_timezone=0,
+              author_timestamp=T0 + 51, author_timezone=0)
+
+
+def _pending_objects(rec: Rec):
+    """The loose objects the recorded operation writes (from its completed run), as ShaFile objects."""
+    from dulwich.objects import ShaFile
+    out = []
+    for c in rec.calls:
+        if c[0] == "rename" and classify_path(c[2])[0] == "loose":
+            pl = parse_loose(rec.final_files.get(c[2], b""))
+            if pl is not None:
+                tnum = {v.decode(): k for k, v in TYPE_NAMES.items()}[pl[1]]
+                out.append(ShaFile.from_raw_string(tnum, pl[2]))
+    return out
+
+
+def _w_add_same_object(rec, st):
+    objs = _pending_objects(rec) or [_new_blob()]
+    for o in objs:
+        st["r"].object_store.add_object(o)
+    return [o.id.decode() for o in objs]
+
+
+def _w_add_other_object(rec, st):
+    b = _new_blob(b"a different object, from another writer\n")
+    st["r"].object_store.add_object(b)
+    return [b.id.decode()]
+
+
+def _w_same_pack(rec, st):
+    if "pack" in st:
+        f = io.BytesIO(st["pack"])
+        st["r"].object_store.add_thin_pack(f.read, None)
+    else:
+        objs = _pending_objects(rec) or [_new_blob()]
+        st["r"].object_store.add_objects([(o, None) for o in objs])
+        return [o.id.decode() for o in objs]
+
+
+def _w_pack_loose(rec, st):
+    st["r"].object_store.pack_loose_objects()
+
+
+def _w_gc(rec, st):
+    from dulwich.gc import garbage_collect
+    garbage_collect(st["r"], grace_period=None)
+
+
+WRITERS = [("retry", _w_retry), ("commit-same-tree", _w_commit_same_tree), ("commit-other-tree", _w_commit_other_tree),
+           ("add-same-object", _w_add_same_object), ("add-other-object", _w_add_other_object),
+           ("same-pack", _w_same_pack), ("pack-loose-objects", _w_pack_loose), ("gc", _w_gc)]
+
+# scenarios whose crash states get ALL writers in the quick tier (they produce every leftover kind of interest);
+# every scenario gets the retry on every crash state; thorough: all writers everywhere
+QUICK_ALL_WRITERS = {"add_object_loose", "stage_loose", "commit_loose", "commit_mixed", "commit_initial", "set_ref_update_loose",
+                     "delete_ref_both", "pack_refs_all_loose", "add_objects_pack_loose", "receive_pack_handler_mixed",
+                     "thin_pack_direct_loose", "shallow_deepen_local", "config_write", "index_write"}
+
+
+def recovery_run(rec: Rec, bf: Before, d: str, w: str, wname: str, wfn, baseline: dict, expected_new=()):
+    """Run writer `wfn` on a copy of crash state `d`.  -> (outcome, problems)."""
+    d2 = os.path.join(w, "recover")
+    shutil.rmtree(d2, ignore_errors=True)
+    shutil.copytree(d, d2, symlinks=True)
+    st = _retry_state(rec, d2)
+    outcome, added = "ok", None
+    try:
+        added = wfn(rec, st)
+    except BaseException as e:  # noqa: BLE001 - an ordinary error is a legitimate outcome
+        if isinstance(e, (KeyboardInterrupt, SystemExit)):
+            raise
+        outcome = "error:" + type(e).__name__
+    finally:
+        _close_state(st)
+    problems = list(oracle(rec, bf, d2, False, post=baseline))
+    if outcome == "ok":
+        # success means the objects are really there (never "somebody holds the lock, so it must be there")
+        R = _repo_mod()
+        r = R.Repo(d2)
+        try:
+            for h in list(added or []) + (list(expected_new) if wname == "retry" else []):
+                try:
+                    tnum, raw = r.object_store.get_raw(h.encode())
+                    if not _hash_ok(h, tnum, bytes(raw)):
+                        problems.append(("success-without-object", f"{h}: bytes do not hash to the name", h))
+                except BaseException as e:  # noqa: BLE001
+                    if isinstance(e, (KeyboardInterrupt, SystemExit)):
+                        raise
+                    problems.append(("success-without-object",
+                                     f"{wname} reported success but {h} is not readable: {type(e).__name__}", h))
+        finally:
+            r.close()
+    return outcome, problems
+
+
+# -- two-process form, without a crash: actor A (a real OS process) is paused between open(<sha>.lock) and the
+#    rename, actor B performs the same operation to completion, then A is killed (SIGKILL: no cleanup runs)
+
+def _actor_main():
+    """Child process: run scenario `name`'s operation on the repository at `root`; pause for ever right before the
+    rename of the lock file of the first loose object of type `otype`."""
+    import time
+    root, name, otype = sys.argv[1:4]
+    scn = next(s_ for s_ in fixed_scenarios() if s_.name == name)
+    st = json.loads(sys.argv[4])
+    st = {k: (v.encode() if isinstance(v, str) else v) for k, v in st.items()}
+    st["r"] = _repo_mod().Repo(root)
+
+    def hook(k, pending):
+        nm, paths = pending
+        if nm in ("replace", "rename") and re.search(r"objects/[0-9a-f]{2}/[0-9a-f]{38}\.lock$", str(paths[0])):
+            with open(os.path.join(root, paths[0]), "rb") as f:
+                pl = parse_loose(f.read())
+            if pl is not None and pl[1] == otype:
+                sys.stdout.write("PAUSED " + str(paths[0]) + "\n")
+                sys.stdout.flush()
+                time.sleep(3600)
+    with sched.Recorder(root, on_boundary=hook):
+        scn.op(st)
+    sys.stdout.write("DONE\n")
+    sys.stdout.flush()
+
+
+def two_process_runs(ctx: core.Ctx, fixed: dict):
+    import select
+    import signal
+    import subprocess
+    for name, otype in (("stage_loose", "blob"), ("commit_loose", "tree"), ("commit_loose", "commit")):
+        rec, cn, ev = fixed[name]
+        w = os.path.join(str(ctx.scratch), "c09", f"two-{name}-{otype}")
+        shutil.rmtree(w, ignore_errors=True)
+        os.makedirs(w)
+        root = os.path.join(w, "repo")
+        shutil.copytree(rec.start_copy, root, symlinks=True)
+        case = {"scenario": name, "form": "two-process", "A_paused_before_rename_of": otype + " lock"}
+        env = core.clean_env({"HOME": os.path.join(w, "home"), "XDG_CONFIG_HOME": os.path.join(w, "home", "xdg"),
+                              "GIT_CONFIG_GLOBAL": os.path.join(w, "home", "gitconfig"), "GIT_AUTO_GC": "0",
+                              "PYTHONPATH": os.pathsep.join([str(core.REPO), str(core.VERIF)])})
+        os.makedirs(os.path.join(w, "home"), exist_ok=True)
+        stj = json.dumps({k: (v.decode() if isinstance(v, bytes) else v) for k, v in rec.st_values.items()
+                          if isinstance(v, (bytes, str, int))})
+        a = subprocess.Popen([core.PY, "-c", "from harness.props import c09; c09._actor_main()", root, name, otype, stj],
+                             stdout=subprocess.PIPE, stderr=subprocess.DEVNULL, env=env)
+        try:
+            rd, _, _ = select.select([a.stdout], [], [], 60)
+            line = a.stdout.readline().decode() if rd else ""
+            if not line.startswith("PAUSED"):
+                ctx.notes.append(f"two-process {name}/{otype}: actor A did not reach the pause point ({line.strip()!r})")
+                continue
+            lock = line.split(" ", 1)[1].strip()
+            with hermetic(Path(w) / "home"):
+                st = _retry_state(rec, root)
+                outcome = "ok"
+                try:
+                    rec.scn.op(st)
+                except BaseException as e:  # noqa: BLE001
+                    if isinstance(e, (KeyboardInterrupt, SystemExit)):
+                        raise
+                    outcome = "error:" + type(e).__name__
+                finally:
+                    _close_state(st)
+        finally:
+            a.send_signal(signal.SIGKILL)
+            a.wait()
+        with hermetic(Path(w) / "home"):
+            problems = oracle(rec, ev.before, root, ctx.thorough, post=ev.obs[0].get("closure", {}))
+        ctx.count("recovery.two-process", (name, otype), True, f"B:{outcome}")
+        for clause, detail, subj in problems:
+            ctx.oracle_fail("recovery.two-process", {**case, "A_lock": lock, "B_outcome": outcome, "clause": clause},
+                            f"{name}: A paused holding {lock}, B ran the same operation ({outcome}), A killed: {clause}: {detail}",
+                            f"two-process:{clause}")
+
+
+def record_retry(rec: Rec, d: str, w: str):
+    """Re-run the scenario's operation on (a copy of) crash state `d` under the recorder.
+    -> (raw calls issued before it returned or raised, outcome)."""
+    d2 = os.path.join(w, "retry-rec")
+    shutil.rmtree(d2, ignore_errors=True)
+    shutil.copytree(d, d2, symlinks=True)
+    files, _ = scan(d2)
+    st = _retry_state(rec, d2)
+    sr = SnapRecorder(d2, files)
+    outcome = "ok"
+    try:
+        with sr:
+            try:
+                rec.scn.op(st)
+                sr.finish()
+            except BaseException as e:  # noqa: BLE001 - an ordinary error ends the retry
+                if isinstance(e, (KeyboardInterrupt, SystemExit)):
+                    raise
+                outcome = "error:" + type(e).__name__
+                sr.pending_skip = None
+    finally:
+        _close_state(st)
+    return sr.calls, outcome
+
+
+# scenarios whose retries (one per crash prefix, the completed run excluded: its retry is a NEW operation) are
+# recorded into Gen/ and discharged by `retryOK … = true`: the loose-object lock mechanism
+RETRY_SCENARIOS = ["add_object_loose", "commit_loose", "commit_initial", "commit_mixed", "tag_create"]   # (stage: the index bytes of a re-run differ by stat data)
+
+
+def add_object_lock_handling(repo: Path) -> bool:
+    """AST obligation on DiskObjectStore.add_object: the GitFile write is not wrapped in a handler that swallows
+    FileLocked / FileExistsError (a held or stale `<sha>.lock` must surface as an error, never as "already there").
+    -> True when some enclosing `try` swallows it."""
+    import ast
+    from .. import translate as T
+    fn = T.find_def(T.module_ast(Path(repo) / "dulwich" / "object_store.py"), "DiskObjectStore.add_object")
+    catching = {"FileLocked", "FileExistsError", "OSError", "IOError", "EnvironmentError", "Exception", "BaseException"}
+    found, swallowed = [False], [False]
+
+    def names(t):
+        if t is None:
+            return {"<bare>"}
+        if isinstance(t, ast.Tuple):
+            return set().union(*(names(e) for e in t.elts))
+        return {t.id} if isinstance(t, ast.Name) else ({t.attr} if isinstance(t, ast.Attribute) else {"?"})
+
+    def is_gitfile_with(n):
+        return isinstance(n, ast.With) and any(
+            isinstance(i.context_expr, ast.Call) and getattr(i.context_expr.func, "id", getattr(i.context_expr.func, "attr", "")) == "GitFile"
+            for i in n.items)
+
+    def walk(node, handlers):
+        for ch in ast.iter_child_nodes(node):
+            if isinstance(ch, ast.Try):
+                for b in ch.body:
+                    walk_stmt(b, handlers + [ch.handlers])
+                for part in (ch.handlers, ch.orelse, ch.finalbody):
+                    for b in part:
+                        walk(b, handlers) if isinstance(b, ast.ExceptHandler) else walk_stmt(b, handlers)
+            else:
+                walk_stmt(ch, handlers)
+
+    def walk_stmt(n, handlers):
+        if is_gitfile_with(n):
+            found[0] = True
+            for hs in handlers:
+                for h in hs:
+                    ns = names(h.type)
+                    reraises = any(isinstance(x, ast.Raise) for x in ast.walk(h))
+                    if (ns & catching or "<bare>" in ns) and not reraises:
+                        swallowed[0] = True
+        walk(n, handlers)
+    walk(fn, [])
+    if not found[0]:
+        raise TranslateError("DiskObjectStore.add_object: `with GitFile(...)` write not found")
+    return swallowed[0]
+
+
+def classify_recovery(rec: Rec, state_files: dict, wname: str, outcome: str, clause: str) -> str:
+    idx = lambda fs: {f for f in fs if f.startswith("objects/pack/") and f.endswith(".idx")}  # noqa: E731
+    if wname == "retry" and outcome == "ok" and rec.scn.kind == "shallow_fetch" and rec.intent.get("refs") \
+            and clause in ("object-unreadable", "history-walk-fails", "git-fsck") \
+            and idx(state_files) - idx(rec.start_files) and state_files.get("shallow") == rec.start_files.get("shallow"):
+        # an INITIAL depth fetch crashed after its pack was installed and before the shallow file was written; the
+        # retry finds the tip in the store, wants nothing, learns no graft point — and the caller sets the ref
+        return "retry-depth-fetch-after-pack-before-shallow"
+    return f"recovery:{wname}:{clause}"
+
+
+def recovery_runs(ctx: core.Ctx, scn: Scn, rec: Rec, cn: Canon, ev: Eval, w: str, case0: dict):
+    all_writers = (ctx.thorough and not scn.kind.startswith("variant-")) or scn.name in QUICK_ALL_WRITERS
+    slow = scn.kind == "shallow_fetch" and rec.intent.get("via") not in ("LocalGitClient.fetch",)
+    bad_js = {f[0] for f in ev.failures}
+    seen_sig = set()
+    last = len(rec.calls)
+    vis0, visn = ev.obs[0].get("vis", set()), ev.obs[last].get("vis", set())
+    expected_new = sorted(visn - vis0) if last not in bad_js else []
+    kinds = ctx.extra_cov.setdefault("recovery_leftovers", {})
+    outcomes = ctx.extra_cov.setdefault("recovery_outcomes", {})
+    with hermetic(Path(w) / "home"):
+        for j, d in crash_states(rec, w):
+            if j in bad_js or "closure" not in ev.obs[j]:
+                continue                      # the crash state itself already violates the property
+            files = ev.listings[j]
+            sig = leftover_kinds(rec, files)
+            for k in sig:
+                kinds[k] = kinds.get(k, 0) + 1
+            first_of_sig = (sig, j == last) not in seen_sig
+            seen_sig.add((sig, j == last))
+            if slow and not ctx.thorough and not first_of_sig:
+                continue
+            for wname, wfn in WRITERS:
+                if wname != "retry" and not (all_writers and first_of_sig and (sig or j in (0, last))):
+                    continue
+                outcome, problems = recovery_run(rec, ev.before, d, w, wname, wfn, ev.obs[j]["closure"], expected_new)
+                ctx.count("recovery", (scn.name, j, wname), True, f"{wname}:{outcome.split(':')[0]}")
+                key = f"{wname}:{outcome}"
+                outcomes[key] = outcomes.get(key, 0) + 1
+                for clause, detail, subj in problems:
+                    ctx.oracle_fail("recovery", {**case0, "j": j, "crash_after": [list(map(_short, c)) for c in rec.calls[max(0, j - 3):j]],
+                                                 "leftovers": [f for f in files if is_temp_name(f)], "writer": wname,
+                                                 "outcome": outcome, "clause": clause},
+                                    f"{scn.name}: crash after {j} calls, then {wname} ({outcome}): {clause}: {detail}",
+                                    classify_recovery(rec, files, wname, outcome, clause))
+
+
 def run(ctx: core.Ctx):
     ctx.assumptions += [
         "crash model: a crash leaves exactly the effects of a prefix of the operation's file-system calls "
@@ -2199,6 +2669,12 @@ def run(ctx: core.Ctx):
         "write may be empty; un-synced directory entries (renames) are assumed durable (dulwich never fsyncs directories)",
         "the checker's soundness theorem quantifies over all start states and crash points; the scenarios are a sample",
         "reflog and other files outside refs/objects/index/config are outside the property (model: `other` paths)",
+        "recovery runs: on every crash state the same operation is re-run in a fresh Repo object (all scenarios, all "
+        "prefixes; smart-transport shallow scenarios: one state per leftover signature in quick) and, for the scenarios "
+        "in QUICK_ALL_WRITERS (thorough: all fixed scenarios), seven other writers on one state per leftover signature; "
+        "an ordinary exception is an accepted outcome; the post state must pass the oracle (refs complete, everything "
+        "reachable in the crash state still readable, nothing half-written listed) and a successful writer's objects "
+        "must be readable; the two-process form uses a real child process killed with SIGKILL",
     ]
     fixed = recorded_fixed()
     _run_corpus(ctx, fixed)
@@ -2221,6 +2697,7 @@ def run(ctx: core.Ctx):
                         "oracle_failures": [list(f[:3]) for f in ev.failures][:3]})
     import gc
     gc.collect()
+    two_process_runs(ctx, fixed)
     ctx.extra_cov["scenarios"] = verdicts
     ctx.extra_cov["programs_recorded"] = len(verdicts)
     ctx.extra_cov["generated_obligations"] = ("Gen/TracesChecked.lean: one `checkProgram … = true/false := by decide +kernel` per "
@@ -2255,6 +2732,9 @@ def _run_corpus(ctx: core.Ctx, fixed: dict):
     for f in sorted(d.glob("*.json")):
         c = json.loads(f.read_text())
         name = c.get("scenario")
+        if c.get("stream") == "recovery" or c.get("class", "").startswith("retry-"):
+            ctx.count("corpus", f.name, True, "documented (exercised by the recovery stream)")
+            continue
         if c.get("force") == "slow-can_read":
             _forced_race(ctx, c, f.name)
             continue
